@@ -14,6 +14,10 @@ UNITS = {
                     desc="every literal constant and table entry of the u64 serial backend + constants.rs, by(compute) against definitions"),
     "CONST32": dict(engine="verus", template="contracts/const32.vx", props=["C12", "C05"], rlimit=300,
                     desc="same for the u32 serial backend (never compiled on this host)"),
+    "S64": dict(engine="verus", template="contracts/s64.vx", props=["C02", "C11", "C12", "C05"], rlimit=100, timeout_s=1500,
+                desc="serial u64 scalar backend: every function of u64/scalar.rs (Scalar52) against integer arithmetic mod l, incl. montgomery_reduce, from_bytes_wide"),
+    "SGR": dict(engine="verus", template="contracts/sgr.vx", props=["C04", "C07", "C02", "C15", "C14"], rlimit=100,
+                desc="scalar.rs recodings: as_radix_16, non_adjacent_form, as_radix_2w (digit sums and ranges, all inputs), clamp_integer, small Scalar functions"),
     "K-ZERO": dict(engine="kani", crate="kani/zero", props=["C14"],
                    desc="drop glue / Zeroize of the secret-holding types of x25519-dalek and ed25519-dalek, on the real crates, complete in the secret value",
                    trusted=["Kani/CBMC/CaDiCaL", "--cfg miri build of zeroize/cpufeatures (asm-free fallback; optimisation barrier not modelled)",
